@@ -140,6 +140,7 @@ def plan(prop):
         for k in ((0, 1) if Q else (0, 1, 2)):
             obs.append((core, lambda ctx, k=k: co.ob_fold_step(ctx, k, True)))
         obs.append((core, lambda ctx: co.ob_fold_step(ctx, 1, False)))
+        obs.append((core, lambda ctx: co.ob_fold_step_multi(ctx)))
         for r, j in (((1, 2), (2, 2), (1, 5)) if Q else ((1, 2), (2, 2), (1, 4), (2, 3), (3, 2), (1, 5), (1, 6))):
             obs.append((core, lambda ctx, r=r, j=j: co.ob_evaluate_all(ctx, r, j)))
         for r, j, per_job in ((2, 2, True), (2, 2, False), (2, 3, True), (3, 2, False)):
